@@ -150,7 +150,10 @@ func queriesFor(tier string) []*qgen.Query {
 			mk(r, s)
 		}
 	}
-	for _, r := range []*qgen.Node{F("items"), F("empty")} {
+	for _, s := range sets(userBlocks(false), 1) {
+		mk(F("usersV"), s)
+	}
+	for _, r := range []*qgen.Node{F("items"), F("empty"), F("itemsV")} {
 		for _, s := range sets(itemBlocks(), k) {
 			mk(r, s)
 		}
@@ -299,6 +302,16 @@ func runSeq(rp *explore.Report, tier string) {
 					if len(m) > 0 {
 						rp.Nontrivial++
 					}
+					if err == nil && reflect.DeepEqual(got, want[qi]) && hasExpensive(m) && si == 0 {
+						// Expensive fields go through reactive.Cache only inside a rerunner
+						got, err = gqlfix.ExecReactive(schema, sched, text, nil)
+						if err != nil || !reflect.DeepEqual(got, want[qi]) {
+							rp.AddViolation(&explore.Violation{Item: fmt.Sprintf("data=%d modes=%s sched=%d in-rerunner %s", di, modesName(m), si, text), Stable: true,
+								Signature: "c01/result!=reference/in-rerunner/" + shape(q),
+								Failures:  []explore.Failure{{Clause: "result==reference", Msg: fmt.Sprintf("inside a reactive rerunner Execute gives %s (err=%v), sequential reference semantics give %s", gqlfix.JS(got), err, gqlfix.JS(want[qi]))}}})
+						}
+						continue
+					}
 					if err != nil || !reflect.DeepEqual(got, want[qi]) {
 						cls := "plain"
 						if len(m) > 0 {
@@ -313,6 +326,15 @@ func runSeq(rp *explore.Report, tier string) {
 		}
 	}
 	rp.AddOutcome(fmt.Sprintf("queries=%d modesets=%d", len(qs), len(ms)))
+}
+
+func hasExpensive(m gqlfix.Modes) bool {
+	for _, v := range m {
+		if v == gqlfix.Expensive {
+			return true
+		}
+	}
+	return false
 }
 
 // shape classifies a query by its root field and whether it uses unions/fragments.
@@ -330,5 +352,5 @@ func shape(q *qgen.Query) string {
 
 func init() {
 	reg.Register(&reg.Harness{Property: "C01", Name: "c01/sequential", Level: "model_checking", Run: runSeq,
-		Rule: "sequential part: every generated query (roots users/user(hit,miss)/nobody/items/empty/things/thing(hit,miss) x unions of 1-2 (thorough 3) selection blocks: scalars, aliases, same alias twice with different sub-selections, inline + named fragments incl. one fragment twice and nested fragments, union member fragments incl. two on one member, __typename, nested objects/lists/nil pointers, key fields) x 3 data sets x one field at a time in each execution mode {expensive, batch, batch+fallback on/off, NumParallelInvocations 1/2/3 on batch, 2 on plain} plus mode pairs x sequential FIFO and LIFO work schedulers; oracle: Execute JSON == independent evaluator over the fixture data"})
+		Rule: "sequential part: every generated query (roots users/user(hit,miss)/nobody/items/empty/things/thing(hit,miss) and the same lists handed over by value (comparable and non-comparable structs) x unions of 1-2 (thorough 3) selection blocks: scalars, aliases, same alias twice with different sub-selections, inline + named fragments incl. one fragment twice and nested fragments, union member fragments incl. two on one member, __typename, nested objects/lists/nil pointers, key fields) x 3 data sets x one field at a time in each execution mode {expensive, batch, batch+fallback on/off, NumParallelInvocations 1/2/3 on batch, 2 on plain} plus mode pairs x sequential FIFO and LIFO work schedulers, and for mode sets with an Expensive field additionally inside a reactive rerunner (reactive.Cache active); oracle: Execute JSON == independent evaluator over the fixture data"})
 }
